@@ -502,6 +502,63 @@ impl Minimizer {
                         });
                     }
                 }
+                Op::Cli { files, .. } => {
+                    // enumeration order and hash seed back to the reference's, one at a time
+                    for field in 0..3 {
+                        let mut c = cur.clone();
+                        {
+                            let mut calls = Self::each_call_mut(&mut c);
+                            if let Op::Cli {
+                                readdir_seed,
+                                hash_base,
+                                debug_log,
+                                ..
+                            } = &mut calls[idx].op
+                            {
+                                match field {
+                                    0 => *readdir_seed = 0,
+                                    1 => *hash_base = 0,
+                                    _ => *debug_log = false,
+                                }
+                            }
+                        }
+                        if c != *cur {
+                            self.try_accept(cur, c);
+                        }
+                    }
+                    self.ddmin_list(cur, files.clone(), &|p: &mut Plan, keep: &[(String, String)]| {
+                        let mut calls = Self::each_call_mut(p);
+                        if let Op::Cli { files, .. } = &mut calls[idx].op {
+                            *files = keep.to_vec();
+                        }
+                    });
+                    let nfiles = {
+                        let mut tmp = cur.clone();
+                        let calls = Self::each_call_mut(&mut tmp);
+                        match &calls[idx].op {
+                            Op::Cli { files, .. } => files.len(),
+                            _ => 0,
+                        }
+                    };
+                    for f in 0..nfiles {
+                        let lines: Vec<String> = {
+                            let mut tmp = cur.clone();
+                            let calls = Self::each_call_mut(&mut tmp);
+                            match &calls[idx].op {
+                                Op::Cli { files, .. } => files[f].1.lines().map(|s| s.to_string()).collect(),
+                                _ => vec![],
+                            }
+                        };
+                        self.ddmin_list(cur, lines, &|p: &mut Plan, keep: &[String]| {
+                            let mut calls = Self::each_call_mut(p);
+                            if let Op::Cli { files, .. } = &mut calls[idx].op {
+                                if f < files.len() {
+                                    files[f].1 = keep.join("\n") + "\n";
+                                }
+                            }
+                        });
+                    }
+                }
                 o => {
                     let Some(src) = o.src() else { continue };
                     // lines first, then pipe segments of what is left
